@@ -2,6 +2,7 @@ package props
 
 import (
 	"bytes"
+	"context"
 	"encoding/json"
 	"fmt"
 	"io"
@@ -107,6 +108,29 @@ func (s *testServer) doReq(r genReq) httpResult {
 	if r.Framing == "expect-continue" {
 		req.Header.Set("Expect", "100-continue")
 	}
+	resp, err := s.client.Do(req)
+	if err != nil {
+		return httpResult{Err: err.Error(), Elapsed: time.Since(t0), Start: t0, End: time.Now()}
+	}
+	defer resp.Body.Close()
+	b, err := io.ReadAll(resp.Body)
+	res := httpResult{Status: resp.StatusCode, Body: b, Elapsed: time.Since(t0), Start: t0, End: time.Now()}
+	if err != nil {
+		res.Err = "reading body: " + err.Error()
+	}
+	return res
+}
+
+// doAbort sends a request and walks away after d (the client closes its connection, as a timed-out or killed client does).
+func (s *testServer) doAbort(r genReq, d time.Duration) httpResult {
+	ctx, cancel := context.WithTimeout(context.Background(), d)
+	defer cancel()
+	t0 := time.Now()
+	req, err := http.NewRequestWithContext(ctx, r.Method, "http://"+s.ProverAddr+"/prove", bytes.NewReader(r.bytes()))
+	if err != nil {
+		return httpResult{Err: "harness:request: " + err.Error(), Start: t0, End: time.Now()}
+	}
+	req.Header.Set("Content-Type", "application/json")
 	resp, err := s.client.Do(req)
 	if err != nil {
 		return httpResult{Err: err.Error(), Elapsed: time.Since(t0), Start: t0, End: time.Now()}
